@@ -91,8 +91,9 @@ def ResolverOK (s : SchemaD) (rv : Bool) (t : TypeD) (f : FieldD) : Prop :=
     reported ⇔ `defaultBad` says so" - it ties the validator's control flow (where the check is made, for which
     arguments, under which guard) to the function, NOT the function to an independent notion of conformance. What
     `defaultBad` computes is compared with the real `_default_value_error` by the correspondence (labelled injections
-    `bad_default_*` at every position) and, for the value grammar, with C07's coercion oracle; an independent
-    declarative `Conforms` relation is not stated here. -/
+    `bad_default_*` at every position). The INDEPENDENT meaning is given in Props/C13_default.lean: the declarative
+    relation `Conforms s ty v` and `defaultOK_iff_conforms` (`DefaultOK` ⇔ the default conforms to its type, for
+    values within the 64 levels the model looks at; `default_error_sound` without any bound). -/
 def DefaultOK (s : SchemaD) (a : ArgD) : Prop := a.hasDefault = true → defaultBad s defaultFuel a.type a.default = false
 
 /-- arguments: well-formed unique names, input types, conforming defaults -/
